@@ -759,6 +759,32 @@ func genCase(t *rapid.T) Case {
 		c.Reqs = append(c.Reqs, Req{Method: "DELETE", Path: "/v2/collections/" + col, Headers: hd})
 		intact = false
 	}
+	if rapid.IntRange(0, 7).Draw(t, "nested-tenant") == 0 {
+		// a tenant whose id continues another tenant's id below a slash ("alice/sub1" beside "alice"): its
+		// shard directories lie below the directory that the shorter id's collection "sub1" would use.
+		// Whatever alice does with a collection of that name addresses alice/sub1 (her collection), never
+		// the collections of the user alice/sub1
+		hdA := map[string]string{"Content-Type": "application/json", "X-User-Id": "alice", "X-Plan-Id": plan}
+		hdN := map[string]string{"Content-Type": "application/json", "X-User-Id": "alice/sub1", "X-Plan-Id": plan}
+		mk := func(id string) string {
+			jb, _ := json.Marshal(map[string]any{"id": id, "indexSchema": map[string]any{"size": map[string]any{"type": "integer"}}})
+			return string(jb)
+		}
+		var seq []Req
+		if rapid.IntRange(0, 3).Draw(t, "nt-alice-first") > 0 {
+			seq = append(seq, Req{Method: "POST", Path: "/v2/collections", Headers: hdA, Body: mk("sub1")})
+		}
+		seq = append(seq,
+			Req{Method: "POST", Path: "/v2/collections", Headers: hdN, Body: mk("kept1")},
+			Req{Method: "POST", Path: "/v2/collections/kept1/points", Headers: hdN, Body: `{"points":[{"_id":"` + poolIds[0] + `","size":7}]}`},
+			Req{Method: "POST", Path: "/v2/collections", Headers: hdA, Body: mk("sub1")})
+		if rapid.IntRange(0, 3).Draw(t, "nt-insert") > 0 {
+			seq = append(seq, Req{Method: "POST", Path: "/v2/collections/sub1/points", Headers: hdA, Body: `{"points":[{"size":1}]}`})
+		}
+		seq = append(seq, Req{Method: "DELETE", Path: "/v2/collections/sub1", Headers: hdA})
+		c.Reqs = append(c.Reqs, seq...)
+		intact = false
+	}
 	var selecting []Req
 	if rapid.IntRange(0, 7).Draw(t, "nonfinite-field") == 0 {
 		// a valid write in MessagePack that carries a non-finite number outside the indexed vectors (such a
@@ -932,13 +958,18 @@ func (s *server) digestByKey() (string, map[string]string, error) {
 
 func (s *server) digestInner() (parts []string, keys []string, err error) {
 	add := func(key, line string) { parts = append(parts, line); keys = append(keys, key) }
-	for _, u := range []string{"alice", "bob"} {
+	for _, u := range []string{"alice", "bob", "alice/sub1"} {
 		cols, err := s.node.ListCollections(u)
 		if err != nil {
 			return nil, nil, err
 		}
 		sort.Slice(cols, func(i, j int) bool { return cols[i].Id < cols[j].Id })
 		for _, col := range cols {
+			if col.UserId != u {
+				// the listing of a user id also returns the collections of ids that continue it below a
+				// slash; they are read under their own user id
+				continue
+			}
 			key := u + "/" + col.Id
 			col.UserPlan = models.UserPlan{MaxCollectionPointCount: 1000, MaxPointSize: 1 << 20}
 			infos, err := s.node.GetShardsInfo(col)
